@@ -28,7 +28,7 @@ from typing import TYPE_CHECKING
 from igraph import Vertex
 
 from explorerscript.ssb_converting.decompiler.write_handlers.abstract import AbstractWriteHandler
-from explorerscript.ssb_converting.ssb_special_ops import SsbLabelJump
+from explorerscript.ssb_converting.ssb_special_ops import OP_JUMP, SsbLabelJump
 
 if TYPE_CHECKING:
     from explorerscript.ssb_converting.ssb_decompiler import ExplorerScriptSsbDecompiler
@@ -48,6 +48,8 @@ class JumpWriteHandler(AbstractWriteHandler):
         """Delegates to the handlers in .label_jump"""
         logger.debug("Handling a jump; (%s)...", self.start_vertex["op"])
         op: SsbLabelJump = self.start_vertex["op"]
+        # A branch or case op that no if or switch was built from can't be written as a jump.
+        assert op.root.op_code.name == OP_JUMP, f"{op.root.op_code.name} is not part of any if or switch."
         # TODO: Writing this source map entry may be confusing, if no jump is written next (by the label handler)...
         self.decompiler.source_map_add_opcode(op.offset)
         # Nothing to do, this is dealt with, when processing the label after this
